@@ -2,20 +2,15 @@ import props
 
 CONFIG = {
     "runs": props.simple("c05", 150, 2500),
-    "status": "partial: PROVED (Props/C05.v, closed under the global context): "
-              "(A) calculate_core is sound for every WF circuit (C05_core_sound[_WF]; needs no no_dead/reachability) "
-              "and exact under WFQ + no_dead (C05_core_syntactic; completeness uses WF + all_reachable + no_dead), "
-              "hence the empty-assumption answer of core_dead_with_assumptions is the semantic core (C05_core_dead_nil_correct); "
-              "(B) REFUTED without no_dead: C05_core_refuted_without_no_dead (finding K7: c2d circuit with a false node, "
-              "core reports [2], every model contains -1 and 2); "
-              "(C) the with-assumptions loop over the truth-table count MCA returns, in order 1..n, exactly the literals "
-              "contained in every model that contains A, both polarities when there is none "
-              "(C05_core_dead_spec_correct[_gen], _In, _unsat; no hypothesis on C or A needed); "
-              "(D) per-candidate criteria C05_candidate_criterion / C05_candidate_dead_criterion / C05_MCA_split; "
-              "glue C05_core_dead_glue / C05_core_dead_with_assumptions_correct: IF execute_query returns MCA and keeps "
-              "the state Clean (explicit hypothesis = statement of execute_query_correct, proved separately, NOT discharged "
-              "here) THEN core_dead_with_assumptions (A non-empty, in range) returns exactly that list and a Clean state; "
-              "C05_countsA_is_MCA. MISSING for 'full': discharging the execute_query hypothesis inside this file's cone. "
-              "Correspondence + truth-table oracle on every request.",
-    "assumptions": ["assumption literals within 1..n"],
+    "status": "full under no_dead, refuted without it (known finding K7): "
+              "C05_core_sound[_WF] (the syntactic core is sound for every WF circuit), C05_core_syntactic (exact under WFQ + no_dead: "
+              "In l (calculate_core C n) <-> every model contains l), C05_core_dead_nil_correct; "
+              "C05_core_refuted_without_no_dead (c2d circuit with a false node: core [2], semantic core [-1, 2]); "
+              "C05_core_dead_with_assumptions (with the C02 theorem discharged: for every non-empty in-range A and every Clean state the "
+              "report is exactly the literals, in loop order, contained in every model containing A; both polarities when none does); "
+              "C05_candidate_criterion / C05_candidate_dead_criterion / C05_MCA_split for the per-candidate form. "
+              "Correspondence: every request compared with the extracted model and judged by the truth table; c2d inputs that keep a "
+              "false node are a separate generator class (they reproduce K7 on every run)",
+    "assumptions": ["assumption literals within 1..n",
+                    "no_dead (all cached counts positive) is established by the d4 loader's false-elimination; it is evaluated per loaded input, not proved for all files"],
 }
